@@ -116,3 +116,22 @@ def run_common(ctx, module, cfg, label):
 
 def run(ctx):
     run_common(ctx, "ProductSound", CFG_SOUND, "C06")
+
+
+def replay_common(ctx, rec, module, cfg, label):
+    """Re-run the real compiler on the recorded problem and let TLC judge the product again."""
+    d = rec["data"]
+    r = compobs.worker((1, d["problem"], d["compiler"], False))
+    if r["skip"] or r["raised"] != "none":
+        print("replay: the compiler did not produce a problem on the current tree (%s %s)" % (r["skip"], r["raised"]))
+        return 0
+    _, fails = run_product(ctx, [r], module, cfg, max(len(d.get("plan", [])), 1) + 1, label + "-replay")
+    for (cid, clause), plan in sorted(fails.items()):
+        print("REPRODUCED property=%s clause=%s plan=%s" % (label, clause, list(plan)))
+    if not fails:
+        print("replay: no violation on the current tree")
+    return 1 if fails else 0
+
+
+def replay(ctx, rec):
+    return replay_common(ctx, rec, "ProductSound", CFG_SOUND, "C06")
